@@ -1586,9 +1586,23 @@ fn replay_int<V: IV>(o: &mut Out, ev: &Value) {
     exec_int::<V>(o, &a, &b, &c, &b.clone(), cnt, &c, 0);
 }
 
+/// where and why the most recent panic happened (recorded silently: many calls are expected to panic and are caught)
+static LAST_PANIC: std::sync::Mutex<String> = std::sync::Mutex::new(String::new());
 fn main() {
+    // an uncaught panic while recording is DATA about the code under test when it comes from inside the library (exit code 3 and a
+    // REC-PANIC line with the location), and a harness error otherwise
+    std::panic::set_hook(Box::new(|info| {
+        let loc = info.location().map(|l| format!("{}:{}", l.file(), l.line())).unwrap_or_default();
+        let msg = info.payload().downcast_ref::<String>().cloned().or_else(|| info.payload().downcast_ref::<&str>().map(|s| s.to_string())).unwrap_or_default();
+        if let Ok(mut g) = LAST_PANIC.lock() { *g = format!("{loc} :: {msg}"); }
+    }));
+    if std::panic::catch_unwind(main2).is_err() {
+        eprintln!("REC-PANIC {}", LAST_PANIC.lock().map(|g| g.clone()).unwrap_or_default());
+        std::process::exit(3);
+    }
+}
+fn main2() {
     let args: Vec<String> = std::env::args().collect();
-    quiet_panics();
     let mode = args[1].as_str();
     let path = &args[2];
     if mode == "replay" {
